@@ -122,7 +122,7 @@ func (h *Hooks) point(name string, a, b, c int64) {
 		if d < 25*time.Millisecond || d > time.Second {
 			h.fail("backoff-out-of-range", "attempt %d back-off %v", a, d)
 		}
-	case "pool.writerstate.get", "pool.chanstate.get", "pool.rpcstate.get", "pool.rpcsrvstate.get":
+	case "pool.writerstate.get", "pool.chanstate.get", "pool.rpcstate.get", "pool.rpcsrvstate.get", "pool.rpcreqstate.get":
 		if b != 0 {
 			h.fail("pool-dirty:"+name, "recycled object %#x is not clean: mask=%#x", a, b)
 		}
@@ -136,7 +136,7 @@ func (h *Hooks) point(name string, a, b, c int64) {
 		if _, loaded := h.live.LoadOrStore("pool.writer"+fmt.Sprint(a), struct{}{}); loaded {
 			h.fail("pool-double-owner:"+name, "pooled writer %#x handed out while still live", a)
 		}
-	case "pool.writerstate.put", "pool.chanstate.put", "pool.rpcstate.put", "pool.rpcsrvstate.put", "pool.writer.put":
+	case "pool.writerstate.put", "pool.chanstate.put", "pool.rpcstate.put", "pool.rpcsrvstate.put", "pool.rpcreqstate.put", "pool.writer.put":
 		h.live.Delete(name[:len(name)-4] + fmt.Sprint(a))
 	}
 	if h.Extra != nil {
